@@ -1,6 +1,7 @@
 import Unimock.Lemmas.Actions
 import Unimock.Props.C02
 import Unimock.Props.C17
+import Unimock.Lemmas.Typestate
 /-!
 # C12 — single-use return values are moved out at most once and never duplicated
 
@@ -232,5 +233,64 @@ theorem C12_typestate_value_level (s : Segment ρ) (v : ρ) (o : Bool) (h : s.re
 theorem C12_composite_single_use (v : Output.Val) (k : Output.Kind) (s : Output.Stored)
     (h : Output.intoReturn true k v = some s) : Output.OnceSpec (Output.hasOwned k v) v s :=
   Output.C17_once v k s h
+
+/-! ## the compile-time half: which builder chains type-check (Model/Typestate) -/
+
+open Typestate in
+theorem run_nonclone (s s' : St) (cs : List Call) (h : run s cs = some s') (i : Nat)
+    (hi : cs[i]? = some (.returns false)) :
+    i = 0 ∧ (∃ o, s = .defineResponse o) ∧ (cs[1]? = none ∨ cs[1]? = some .once) := by
+  induction cs generalizing s i with
+  | nil => simp at hi
+  | cons c cs ih =>
+    rw [run_cons] at h
+    cases hs : step s c with
+    | none => simp [hs] at h
+    | some s1 =>
+      simp only [hs, Option.bind_some] at h
+      cases i with
+      | zero =>
+        simp only [List.getElem?_cons_zero, Option.some.injEq] at hi
+        subst hi
+        obtain ⟨o, hs0, hs1⟩ := step_returns_nonclone s s1 hs
+        refine ⟨rfl, ⟨o, hs0⟩, ?_⟩
+        cases cs with
+        | nil => left; rfl
+        | cons d ds =>
+          right
+          rw [run_cons] at h
+          cases hd : step s1 d with
+          | none => simp [hd] at h
+          | some s2 =>
+            subst hs1
+            simp [step_from_quantifyRV_nonclone o d s2 hd]
+      | succ k =>
+        simp only [List.getElem?_cons_succ] at hi
+        obtain ⟨_, ⟨o, ho⟩, _⟩ := ih s1 h k hi
+        exact absurd (ho ▸ hs) (step_not_defineResponse s c o)
+
+open Typestate in
+/-- **C12, the builder refuses to quantify a non-Clone value for more than one use.** In every chain
+    of builder calls that type-checks, a `returns(v)` with a non-`Clone` `v` can only be the first call
+    after `some_call` / `next_call` (never after `each_call`, inside a `stub` or after `then()`), and it
+    is followed by nothing (implicit once) or by `.once()` — never by `n_times` / `at_least_times`. -/
+theorem C12_nonclone_quantified_once_only (e : Entry) (cs : List Call) (h : accepts e cs = true) (i : Nat)
+    (hi : cs[i]? = some (.returns false)) :
+    i = 0 ∧ (e = .someCall ∨ e = .nextCall) ∧ (cs[1]? = none ∨ cs[1]? = some .once) := by
+  unfold accepts at h
+  cases hr : run e.start cs with
+  | none => simp [hr] at h
+  | some s' =>
+    obtain ⟨h0, ⟨o, ho⟩, h1⟩ := run_nonclone e.start s' cs hr i hi
+    refine ⟨h0, ?_, h1⟩
+    cases e <;> simp [Entry.start] at ho ⊢
+
+open Typestate in
+/-- non-vacuity and the boundary cases, decided on the model (the same chains are compiled against the
+    real crate by the check) -/
+example : accepts .someCall [.returns false] = true ∧ accepts .nextCall [.returns false, .once] = true ∧
+    accepts .someCall [.returns false, .nTimes] = false ∧ accepts .someCall [.returns false, .atLeastTimes] = false ∧
+    accepts .eachCall [.returns false] = false ∧ accepts .someCall [.returns false, .once, .then_, .returns false] = false ∧
+    accepts .someCall [.returns true, .nTimes, .then_, .returns true, .atLeastTimes] = true := by decide
 
 end Unimock
